@@ -2,7 +2,7 @@ CONSTANTS
   H = 4
   NWit = 2
   MaxCalls = 2
-  PrimaryPersonas = {"honest", "lunatic", "flip2", "nopivot"}
+  PrimaryPersonas = {"honest", "lunatic", "flip2", "nopivot", "weak4hole"}
   WitnessPersonas = {"honest", "lunatic", "silent", "lagcatch", "weak3"}
   Modes = {"skip", "seq"}
   Roots = {1, 3}
@@ -18,6 +18,7 @@ CONSTANTS
   Weak_BackwardsUnbound = FALSE
   Weak_ReplacementHashUnchecked = FALSE
   Weak_PromotedWitnessStays = FALSE
+  Weak_PartialTraceOnBenignError = FALSE
 INIT Init
 NEXT Next
 INVARIANTS TrustRootOnly StoreSound WitnessConfirmed IndependentWitness NoConfirmationFromSilence AttackReported AttackStoresNothing StoreMonotone
